@@ -212,3 +212,43 @@ __all__ = ["Timestamp", "add"]
 __all__ = ["RegexNotMatchError", "MissingRequiredField", "UnreachableError", "raise_"]
 '''),
 ], "__all__ lists in two modules")
+
+ben("benign_result_cache_keyed_by_full_text", [
+    ("chartparse/chart.py",
+     '''        lines = fp.read().splitlines()
+        data_sections = cls._partition_lines_by_data_section(lines)''',
+     '''        text = fp.read()
+        cache_key = (text, None if want_tracks is None else tuple(want_tracks))
+        try:
+            cached = cls._result_cache.get(cache_key)
+        except TypeError:
+            cache_key = None
+            cached = None
+        if cached is not None:
+            return cached
+        chart = cls._from_text(text, want_tracks)
+        if cache_key is not None:
+            if len(cls._result_cache) >= 64:
+                cls._result_cache.clear()
+            cls._result_cache[cache_key] = chart
+        return chart
+
+    _result_cache: typ.ClassVar[dict] = {}
+
+    @classmethod
+    def _from_text(
+        cls,
+        text: str,
+        want_tracks: Sequence[tuple[Instrument, Difficulty]] | None = None,
+    ) -> Chart:
+        lines = text.splitlines()
+        data_sections = cls._partition_lines_by_data_section(lines)'''),
+], "a correct result cache keyed by the whole text and the selection: equal inputs give the SAME (immutable) chart object")
+
+ben("benign_sections_parsed_in_sorted_header_order", [
+    ("chartparse/chart.py",
+     '''        for header_tag, data_section_lines in data_sections.items():
+            if header_tag in instrument_track_name_to_instrument_difficulty_pair:''',
+     '''        for header_tag, data_section_lines in sorted(data_sections.items(), key=lambda kv: kv[0]):
+            if header_tag in instrument_track_name_to_instrument_difficulty_pair:'''),
+], "instrument sections are parsed (and stored) in sorted header order instead of file order")
